@@ -5,6 +5,7 @@
 #   name | check | tier | DETECTED/MISSED
 # run_mutations.sh [log] [k n]   k n: run only every n-th entry starting with the k-th (parallel streams;
 #   each stream uses its own scratch-worktree slot, and VERIF_WORKERS can be lowered to share the cores)
+# ONLY=<regex>: run only the entries whose name matches (used to add new seeds to an existing log)
 cd "$(dirname "$0")"
 out=${1:-build/mutations.log}
 k=${2:-0}; n=${3:-1}
@@ -13,6 +14,7 @@ mkdir -p build
 : > $out
 i=0
 one() { # name patch id tier
+  if [ -n "${ONLY:-}" ] && ! echo "$1" | grep -Eq "$ONLY"; then return; fi
   if [ $((i % n)) -eq $k ]; then
     res=$(./mutate.sh $2 $3 $4 2>&1 | tail -1 | awk '{print $1}')
     echo "$1 | $3 | $4 | $res" | tee -a $out
